@@ -361,6 +361,9 @@ pub enum ClientPlan {
     /// is awaited alone for `drop_after_ms` and then dropped; the others and one further request
     /// must complete with their own replies
     DropReader { k: usize, drop_after_ms: u64 },
+    /// C06: one request, then - `gap_ms` later, while the peer has written only the first part of
+    /// its reply - a second request; both replies must come back intact
+    Staggered { gap_ms: u64 },
 }
 
 async fn run_client<T: Transport + 'static>(
@@ -372,6 +375,43 @@ async fn run_client<T: Transport + 'static>(
         ClientPlan::Rounds(rounds) => run_rounds(sess, rounds, obs).await,
         ClientPlan::DropReader { k, drop_after_ms } => {
             run_drop_reader(sess, *k, *drop_after_ms, obs).await;
+        }
+        ClientPlan::Staggered { gap_ms } => {
+            let wait = Duration::from_millis(6000);
+            let mut futs = Vec::new();
+            for m in 0..2 {
+                if m == 1 {
+                    tokio::time::sleep(Duration::from_millis(*gap_ms)).await;
+                }
+                match sess
+                    .rpc::<GetConfig<Opaque>, _>(|b| b.source(Ds::Running.to_lib())?.finish())
+                    .await
+                {
+                    Ok(f) => futs.push((m, f)),
+                    Err(e) => obs.replies.push(ReplyObs {
+                        round: 0,
+                        index: m,
+                        result: Err(format!("send failed: {e:?}")),
+                        at_ns: mono_ns(),
+                    }),
+                }
+            }
+            let results = futures::future::join_all(futs.into_iter().map(|(m, f)| async move {
+                (m, tokio::time::timeout(wait, f).await, mono_ns())
+            }))
+            .await;
+            for (m, res, at) in results {
+                obs.replies.push(ReplyObs {
+                    round: 0,
+                    index: m,
+                    result: match res {
+                        Err(_) => Err("TIMEOUT".to_string()),
+                        Ok(Ok(o)) => Ok(o.to_string()),
+                        Ok(Err(e)) => Err(format!("{e:?}")),
+                    },
+                    at_ns: at,
+                });
+            }
         }
     }
 }
@@ -956,10 +996,124 @@ impl Prop for C06 {
     }
 }
 
+// ------------------------------------------------------------------ a request between two packets
+
+#[derive(Debug, Clone, Serialize, Deserialize)]
+pub struct StaggeredCase {
+    pub transport: Tr,
+    /// where the first reply is cut (fraction of its length)
+    pub cut: u16,
+    pub pad: u16,
+}
+
+/// The peer writes the first part of reply 1, *waits until it has received the second request*,
+/// then writes the rest of reply 1 and reply 2: sending must not disturb what has been received.
+pub struct Staggered;
+
+impl Prop for Staggered {
+    type Case = StaggeredCase;
+    fn max_shrink_iters(&self) -> u32 {
+        60
+    }
+    fn name(&self) -> &'static str {
+        "request-between-packets"
+    }
+    fn rule(&self) -> String {
+        "transport {TLS, SSH, local CLI} x cut position of the first reply x its size: the client sends a request, the peer writes the first part of the reply and then waits for the client's second request (sent 250 ms later) before it writes the rest and the second reply. Oracle: both callers receive exactly their payloads. Non-trivial = every case (a send falls between two parts of a received message); distinct by case".into()
+    }
+    fn cases(&self, tier: Tier) -> u32 {
+        tier.pick(24, 2_000)
+    }
+    fn max_threads(&self) -> usize {
+        6
+    }
+    fn fixed_cases(&self) -> Vec<StaggeredCase> {
+        [Tr::Tls, Tr::Ssh, Tr::Local]
+            .into_iter()
+            .map(|transport| StaggeredCase { transport, cut: 32768, pad: 0 })
+            .collect()
+    }
+    fn strategy(&self, _tier: Tier) -> BoxedStrategy<StaggeredCase> {
+        (
+            prop_oneof![Just(Tr::Tls), Just(Tr::Ssh), Just(Tr::Local)],
+            any::<u16>(),
+            prop_oneof![3 => Just(0u16), 2 => 0u16..3000],
+        )
+            .prop_map(|(transport, cut, pad)| StaggeredCase { transport, cut, pad })
+            .boxed()
+    }
+    fn check(&self, case: &StaggeredCase) -> Obs {
+        let mut obs = Obs::default();
+        obs.class(format!("transport:{:?}", case.transport));
+        obs.nontrivial = true;
+        let once = |case: &StaggeredCase| -> Option<(String, String)> {
+            let hello = hello_bytes(&[BASE10, CAP_CANDIDATE], 66);
+            let p1 = payload(0, 0, 0, case.pad as usize);
+            let p2 = payload(0, 1, 0, 0);
+            let first = reply_message("1", &p1);
+            let cut = ((case.cut as usize * first.len()) >> 16).clamp(1, first.len() - 1);
+            let mut rest = first[cut..].to_vec();
+            rest.extend_from_slice(&reply_message("2", &p2));
+            let script = Script {
+                steps: vec![
+                    Step::Write(hello),
+                    Step::AwaitMessages(2),
+                    Step::Write(first[..cut].to_vec()),
+                    Step::AwaitMessages(3),
+                    Step::PauseMs(20),
+                    Step::Write(rest),
+                    Step::HoldMs(8000),
+                ],
+            };
+            let (tr, sc) = (case.transport, script);
+            let t = format!("{:?}", case.transport).to_lowercase();
+            let res = crate::core::with_watchdog(Duration::from_secs(40), move || {
+                run_session(tr, &sc, ClientPlan::Staggered { gap_ms: 250 })
+            });
+            let (client, marks) = match res {
+                None => return Some((format!("{t}:client-never-returns"), "the client thread did not return".into())),
+                Some(Err(e)) => return Some(("harness-sanity:setup".into(), e)),
+                Some(Ok(x)) => x,
+            };
+            if !matches!(client.established, Some(Ok(()))) {
+                return Some((format!("harness-sanity:establishment-failed:{t}"), format!("{:?}; peer {:?}", client.established, marks.error)));
+            }
+            for (m, want) in [(0usize, &p1), (1, &p2)] {
+                match client.replies.iter().find(|o| o.index == m) {
+                    Some(o) if o.result.as_ref() == Ok(want) => {}
+                    other => {
+                        return Some((
+                            format!("{t}:reply-lost-or-damaged-when-a-request-is-sent-between-its-packets"),
+                            format!(
+                                "reply {} of 2 (first reply cut after {cut} of {} bytes, second request sent in between): caller received {:?}",
+                                m + 1,
+                                first.len(),
+                                other.map(|o| &o.result)
+                            ),
+                        ))
+                    }
+                }
+            }
+            None
+        };
+        if let Some((sig, msg)) = once(case) {
+            if sig.starts_with("harness") || once(case).is_some() {
+                obs.fail(sig, msg);
+            } else {
+                obs.class("not-reproduced(discarded)");
+            }
+        }
+        obs
+    }
+    fn assumptions(&self) -> Vec<String> {
+        vec!["the second request is sent 250 ms after the first; the peer waits for it, so the order 'part 1 received, request 2 sent, rest received' does not depend on timing; a failure must reproduce on an immediate re-run".into()]
+    }
+}
+
 pub fn property() -> Property {
     Property {
         id: "C06",
         level: "exploration",
-        parts: vec![Box::new(PropPart(C06))],
+        parts: vec![Box::new(PropPart(C06)), Box::new(PropPart(Staggered))],
     }
 }
